@@ -23,7 +23,10 @@ def shards(tier, seed):
 
 
 def name_pool():
-    base = ["A", "B", "READ_10", "write", "x1", "_private", "lower_case", "MiXeD", "Z9", "INQUIRY", "a", "b", "c", "d", "e", "f", "g", "_", "_0", "k_9"]
+    base = ["A", "B", "READ_10", "write", "x1", "_private", "lower_case", "MiXeD", "Z9", "INQUIRY", "a", "b", "c", "d", "e", "f", "g", "_", "_0", "k_9",
+            # ordinary words that an implementation might also use for its own parameters or bookkeeping
+            "name", "value", "code", "type", "id", "self", "args", "kwargs", "key", "opcode", "serviceaction", "items", "values", "get",
+            "update", "pop", "dict", "enum", "data", "result", "bases", "attrs"]
     return [n for n in base if n not in RESERVED and not n.startswith("__")]
 
 
@@ -133,10 +136,13 @@ def run(shard, ctx):
         wit = {"history": log}
         compare(ctx, enums, wit, "construction")
         adds = removes = 0
-        for step in range(rng.randint(1, 40)):
+        # some histories are only observed every few operations: an observation may itself repair hidden state
+        look_every = rng.choice([1, 1, 2, 3, 5, 8])
+        nsteps = rng.randint(1, 40)
+        for step in range(nsteps):
             idx = rng.randrange(len(enums))
             E, model, form = enums[idx]
-            op = rng.choice(["add", "add", "remove", "remove", "lookup", "reverse", "keys"])
+            op = rng.choice(["add", "add", "remove", "remove", "lookup", "reverse", "keys"] if look_every == 1 else ["add", "remove", "remove", "remove", "add"])
             if op == "add":
                 k = rng.choice(names)
                 v = rng.choice(list(model.values())) if model and rng.random() < 0.3 else rng.choice(ks)()
@@ -173,7 +179,8 @@ def run(shard, ctx):
             else:
                 log.append((op, idx))
             ctx.count("operations")
-            compare(ctx, enums, wit, "step %d (%s)" % (step, log[-1][0]))
+            if step % look_every == look_every - 1 or step == nsteps - 1:
+                compare(ctx, enums, wit, "step %d (%s)" % (step, log[-1][0]))
         ctx.case(tuple(map(repr, log)), adds >= 1 and removes >= 1, sample={"history": log[:12]} if ctx.want_sample() else None)
         ctx.add("value_kinds", "callables" if allow_callables else "data")
 
